@@ -14,10 +14,11 @@ rm $W/$PKG/zz_seed_demo_test.go
 builds=$(cd $W/$PKG && go build . 2>&1 | tail -1)
 git checkout -q -- .
 echo "demo on clean tree: $clean"; echo "demo with patch:    $with"; echo "build with patch: ${builds:-ok}"
-mkdir -p /verif/seeded/$P && cp $S/patch.diff $S/demo_test.go $S/meta.json /verif/seeded/$P/
+D=/verif/seeded/$P; n=2; while [ -d $D ]; do D=/verif/seeded/${P}_$n; n=$((n+1)); done
+mkdir -p $D && cp $S/patch.diff $S/demo_test.go $S/meta.json $D/
 cd /verif
 if [ -n "$(git -C /repo status --porcelain)" ]; then echo "/repo dirty"; exit 2; fi
-git -C /repo apply /verif/seeded/$P/patch.diff || { echo "patch does not apply to /repo"; exit 2; }
+git -C /repo apply $D/patch.diff || { echo "patch does not apply to /repo"; exit 2; }
 out=$(./check $P --tier quick 2>&1); code=$?
 git -C /repo checkout -- .
 echo "check $P with seed: exit=$code"; echo "$out" | grep "failed obligation" | cut -c1-220 | head -6; echo "$out" | grep "^VIOLATION" | head -3
